@@ -131,6 +131,11 @@ func OracleC07(r *SeqRun) []explore.Violation {
 			if !ok && h.ExpriedFlag&fUnlim == 0 && h.ExpriedIn <= unitSeconds(h.ExpriedFlag)+1 {
 				continue // no more than the deadline tolerance was left: it may count as expired after the outage
 			}
+			if fd, has := firstDeadline[hk]; !ok && suffix == "" && has && stopT >= fd {
+				// the hold was renewed by a later re-lock / update, its first record's own period is over: what is left in the
+				// log no longer adds up to a hold (e.g. one level was released since)
+				suffix = "/renewed-hold-whose-first-record-lapsed"
+			}
 			if !ok {
 				add("persisted-hold-lost"+suffix, fmt.Sprintf("hold db%d key%x id%x (depth %d, expiry flag %#x, age %ds) counts as persisted but was not restored", hk.db, hk.key[15], hk.id[15], h.Depth, h.ExpriedFlag, h.StartAgo))
 				continue
@@ -325,6 +330,16 @@ func c07Specs(quick bool) []*SeqSpec {
 		op(0, U(0, 16, 1)),
 		op(0, withData(hapi.Cmd{Type: 2, Key: 16, Id: 1}, v2)),
 		tick(1 * sec),
+	}})
+	// a hold entered with a short period and re-entered / updated with a longer one: when the restart comes the FIRST
+	// record's own period is over, the later records' is not; also next to a co-holder of the counting key
+	specs = append(specs, &SeqSpec{Name: "restart-first-record-lapsed", Cfg: rcfg, Depth: 5, Restart: true, MaxStates: 300000, Alphabet: []SeqOp{
+		op(0, z(L(0, 17, 1, 0, 3, 2, 5))),
+		op(0, z(L(0, 17, 1, 0, 30, 2, 5))),
+		op(0, withF(z(L(0, 17, 1, 0, 60, 0, 5)), 0x02)),
+		op(1, z(L(0, 17, 2, 0, 60, 2, 0))),
+		op(0, hapi.Cmd{Type: 2, Key: 17, Id: 1, Rcount: 1}),
+		tick(2500 * ms),
 	}})
 	// a configured persistence delay of 4 s (records written late carry the time that is LEFT) and of 50 s (longer than
 	// the 44 s a hold spends in the short expiry wheel before it moves to the long table)
